@@ -12,6 +12,7 @@ import Aqv.Base.Proto
 import Aqv.Model.EvmOps
 import Aqv.Model.EvmSpec
 import Aqv.Model.EvmSelect
+import Aqv.Model.EvmRun
 open Aqv Aqv.Proto Aqv.Big Aqv.Evm Aqv.Gen.VmTable
 
 def hexNatAux : List Char → Nat → Option Nat
@@ -110,8 +111,8 @@ def optGas : Option UInt64 → Option Nat
 /-- Impl gas of the single-op program `PUSH32 × arity, OP, PUSH1 0, MSTORE, PUSH1 32, PUSH1 0, RETURN`, from the generated table
     and the gas-function models. -/
 def implProgGas (e : Epoch) (gt : GasTable) (info : OpInfo) (args : List Int) : Option Nat := do
-  let p32 ← (← lookup e 0x7f).constGas
-  let p1 ← (← lookup e 0x60).constGas
+  let p32 ← (← implInfoAt e 0x7f).constGas
+  let p1 ← (← implInfoAt e 0x60).constGas
   let opGas ←
     match info.constGas with
     | some g => some g
@@ -121,7 +122,7 @@ def implProgGas (e : Epoch) (gt : GasTable) (info : OpInfo) (args : List Int) : 
   let ret ← optGas (gasReturn ⟨32, 3⟩ 32)
   some (p32 * args.length + opGas + p1 + mstore + p1 + p1 + ret)
 
-def specRow (level op : Nat) : Option EvmSpec.Row := (EvmSpec.opcodeTable level).find? (fun r => r.op == op)
+def specRow (level op : Nat) : Option EvmSpec.Row := specRowAt level op
 
 def specProgGas (level : Nat) (expByte : Nat) (opc : Nat) (args : List Nat) : Option Nat := do
   let row ← specRow level opc
@@ -186,7 +187,7 @@ def caseSel (cfgS hS : String) (go : String) : String :=
   match parseCfg cfgS, hS.toNat? with
   | some c, some h =>
     let e := selectEpoch c h
-    let impl := bitmapHex (fun op => (lookup e op).isSome) ++ " " ++ toString (gasTableOf (selectGasTable c h)).expByte
+    let impl := bitmapHex (fun op => (implInfoAt e op).isSome) ++ " " ++ toString (gasTableOf (selectGasTable c h)).expByte
     let lvl := specLevel c h
     let spec := bitmapHex (fun op => (specRow lvl op).isSome) ++ " " ++ toString (specExpByte c h)
     judge impl go (go == spec) (if impl == go then "unexpected-modelled-deviation" else "valid-opcode-set-or-gas-table-differs-from-fork-schedule")
@@ -197,7 +198,7 @@ def caseArity (eS bS : String) (go : String) : String :=
   | some e, some b =>
     let pushesKnown := !(go.endsWith " -")
     let render (pops pushes : Nat) : String := "ok " ++ toString pops ++ " " ++ (if pushesKnown then toString pushes else "-")
-    let impl := match lookup e b with
+    let impl := match implInfoAt e b with
       | none => "invalid"
       | some i => render i.pops i.pushes
     let spec := match specRow (epochLevel e) b with
@@ -327,6 +328,40 @@ def caseMs (a b : String) (go : String) : String :=
     judge impl go (go == spec) (if impl == go then "unexpected-modelled-deviation" else "mem-size-differs-from-spec")
   | _, _ => "bad-op\tagree"
 
+def renderOutcome : Outcome → String
+  | .ok ret g => "ok " ++ hexOrDash ret ++ " " ++ toString g
+  | .revert ret g => "revert " ++ hexOrDash ret ++ " " ++ toString g
+  | .fail f => "fail " ++ f.name
+  | .skip op => "skip " ++ toString op
+  | .fuel => "fuel"
+
+/-- the Spec does not distinguish the kinds of exceptional halt -/
+def normFail (s : String) : String := if s.startsWith "fail" then "fail" else s
+
+def harnessEnv (code calldata : Bytes) : Env :=
+  { code := code.toArray, calldata := calldata.toArray, address := 0xc0de0, caller := 0xc0ffe, origin := 0xc0ffe, callvalue := 0,
+    gasprice := 1, coinbase := 0, timestamp := 1000, number := 0, difficulty := 1, gaslimit := 10000000 }
+
+/-- `prog <epoch> <gt> <gas> <code> <calldata>`: whole programs over the modelled opcode subset -/
+def caseProg (eS gtS gasS codeS dataS : String) (go : String) : String :=
+  match parseEpoch eS, parseGt gtS, gasS.toNat?, bytesOfHex codeS, bytesOfHex dataS with
+  | some e, some gtn, some gas, some code, some data =>
+    let env := harnessEnv code data
+    match runImpl env e (gasTableOf gtn) gas with
+    | .skip op => "skip " ++ toString op ++ "\tagree"
+    | oi =>
+      let impl := renderOutcome oi
+      let spec := renderOutcome (runSpec env (epochLevel e) (specExpByteOf gtn) false gas)
+      if spec.startsWith "skip" then impl ++ "\tagree"
+      else
+        let gon := normFail go
+        if gon == normFail spec then judge impl go true ""
+        else
+          let specK := renderOutcome (runSpec env (epochLevel e) (specExpByteOf gtn) true gas)
+          if impl == go ∧ gon == normFail specK then impl ++ "\tspec-reject:sar-shift-ge-256-of-zero"
+          else impl ++ "\tspec-reject:program-outcome-differs-from-spec"
+  | _, _, _, _, _ => "bad-op\tagree"
+
 def handle (l : String) : String :=
   let (inp, go) := splitCase l
   match fields inp with
@@ -341,6 +376,7 @@ def handle (l : String) : String :=
   | ["callgas", a, b, c, d] => caseCallgas a b c d go
   | ["ws", a] => caseWs a go
   | ["ms", a, b] => caseMs a b go
+  | ["prog", e, gt, gas, code, data] => caseProg e gt gas code data go
   | _ => "bad-op\tagree"
 
 def main : IO Unit := runLines handle
